@@ -152,7 +152,7 @@ def same(u, w, exact=True, tol=1e-12):
 def replay_contract(prog, rng, rec_kinds=('ndarray', 'utpm'), replays=None):
     """returns list of failures (dict) and number of comparisons"""
     a = A(); ns = progs.NS(a); N = prog.N; fails = []; n = 0
-    replays = replays or [('ndarray', None), ('utpm', (1, 1)), ('utpm', (3, 2)), ('utpm', (2, 3)), ('ndarray', None)]
+    replays = replays or [('ndarray', None), ('utpm', (1, 1)), ('utpm', (3, 2)), ('utpm', (2, 3)), ('ndarray', None), ('utpm', (3, 2)), ('utpm', (3, 2))]
     for rk in rec_kinds:
         xr = numpy.array([native.rnd(rng, 0.25, 1.0) for _ in range(N)]) if rk == 'ndarray' else make_utpm(N, 2, 1, rng)
         created = [0]
@@ -178,7 +178,7 @@ def replay_contract(prog, rng, rec_kinds=('ndarray', 'utpm'), replays=None):
         # nothing is recorded while recording is off
         prog.run(ns, a.Function(xr)); n += 1
         if len(cg.functionList) != nlist: fails.append({'what': 'nodes appended while tracing is off', 'record_kind': rk})
-        order = list(replays); rng.shuffle(order)
+        order = list(replays); rng.shuffle(order); held = []
         for (uk, dp) in order:
             u = numpy.array([native.rnd(rng, 0.25, 1.0) for _ in range(N)]) if uk == 'ndarray' else make_utpm(N, dp[0], dp[1], rng)
             try: want = prog.run(ns, u)
@@ -188,6 +188,13 @@ def replay_contract(prog, rng, rec_kinds=('ndarray', 'utpm'), replays=None):
                 fails.append({'what': 'replay raises %s but direct evaluation succeeds' % type(e).__name__, 'record_kind': rk, 'replay_kind': uk, 'DP': dp, 'u': _ser(u)}); continue
             n += 1
             if not same(got, want): fails.append({'what': 'replay differs from direct evaluation', 'record_kind': rk, 'replay_kind': uk, 'DP': dp, 'u': _ser(u), 'got': _ser(got), 'want': _ser(want)})
+            else: held.append((got, want, u, (u.data.copy() if isinstance(u, a.UTPM) else numpy.array(u, copy=True)), uk, dp))
+        # what earlier replays handed out (and were given) still holds after the later ones: a replay must not write into the result objects
+        # or argument arrays of another replay (several replays share D, P and dtype)
+        for k_, (got, want, u, ucopy, uk, dp) in enumerate(held):
+            n += 1
+            if not same(got, want): fails.append({'what': 'the result of replay %d, looked at after the later replays, no longer equals the direct evaluation (a later replay wrote into it)' % k_, 'record_kind': rk, 'replay_kind': uk, 'DP': dp}); break
+            if not numpy.array_equal(u.data if isinstance(u, a.UTPM) else u, ucopy): fails.append({'what': 'the argument of replay %d was modified by a later replay' % k_, 'record_kind': rk, 'replay_kind': uk, 'DP': dp}); break
     # a second, already closed graph is re-evaluated (on plain values) in the middle of this recording: the recording must go on in
     # ITS graph, the helper graph must not grow, and replays must still equal direct evaluation
     try:
